@@ -2,6 +2,7 @@ pub mod abi;
 pub mod gateway;
 pub mod gas;
 pub mod tm;
+pub mod gov;
 
 use crate::rng::Rng;
 use crate::Sink;
@@ -13,6 +14,9 @@ pub fn generate(prop: &str, rng: &mut Rng, n: usize, sink: &mut Sink) {
         "C01" | "C02" | "C03" => gateway::gen(rng, n, sink, prop),
         "C15" => gas::gen(rng, n, sink),
         "C09" | "C10" => tm::gen(rng, n, sink, prop),
+        "C11" | "C12" | "C16" => gov::gen(rng, n, sink, prop),
+        "C11F3" => gov::scenario_f3(rng, sink, false),
+        "C12F3" => gov::scenario_f3(rng, sink, true),
         _ => panic!("no generator for {prop}"),
     }
 }
